@@ -193,6 +193,8 @@ def mutate_name(rng, base: str, sb_expr: str, through: list) -> tuple:
     """(name, tag) — `base` is a relative path that exists in the search directory"""
     r = rng
     k = r.below(34)
+    if r.chance(30):  # keep a good share of names that are expected to load
+        k = r.choice([0, 1, 2, 3, 21, 25, 28, 29, 30])
     stem = base.rsplit(".", 1)[0] if "." in base.split("/")[-1][1:] else base
     if k == 0:
         return base, "plain"
@@ -286,7 +288,7 @@ def through_link_paths(tree_root: dict, sb_tree: dict) -> list:
     return out
 
 
-EXTS = [None, None, "", ".liquid", ".txt", "..", ".tar.gz", ".x y"]
+EXTS = [None, None, None, "", ".liquid", ".liquid", ".txt", ".txt", "..", ".tar.gz", ".x y", "liquid", ".a/b", "."]
 SEARCHES = [["$SB/root"], ["$SB/root"], ["$SB/root", "$SB/root2"], ["$SB/root2", "$SB/root"], ["$SB/rootlnk"], ["root"],
             ["$SB/root/sub/.."], ["$SB/missing", "$SB/root"], ["$SB/root/sub", "$SB/root"], ["$SB//root/./"], ["//$SB/root"],
             ["$SB/root/a.txt", "$SB/root"], ["."], [""], ["$SB/root/loopA", "$SB/root"]]
@@ -436,7 +438,11 @@ class LoaderStream(Stream):
             os.chdir(sb)
             cleanup = []
             try:
-                env = Environment(loader=self.make_loader(case, sb, pkg, cleanup))
+                try:
+                    env = Environment(loader=self.make_loader(case, sb, pkg, cleanup))
+                except ValueError:
+                    # documented: "Raise: ValueError if `ext` is not a valid suffix" — a configuration error
+                    return {"sb": sb, "pkg": pkg, "ctor": "ValueError", "results": [], "allowed": [], "checks": []}
                 results = [_load(env, n, case["mode"], case["via"]) for n in names]
                 again = [_load(env, n, case["mode"], case["via"]) for n in names] if case.get("caching") else None
                 bases = [b if b.startswith("/") else os.path.join(sb, b) for b in self.bases(case, sb, pkg)]
@@ -466,6 +472,8 @@ class LoaderStream(Stream):
 
     # -- model ------------------------------------------------------------------------------
     def compare_view(self, case, obs):
+        if "ctor" in obs:
+            return {"ctor": obs["ctor"]}
         return obs["results"]
 
     def canon_model(self, case, mobs):
@@ -513,6 +521,8 @@ class LoaderStream(Stream):
 
     def tags(self, case, obs):
         t = [case["mode"], case["via"], case["flavour"]] + [f"name:{x}" for x in case["tags"]]
+        if "ctor" in obs:
+            t.append("ctor-" + obs["ctor"])
         for r in obs["results"]:
             t.append("hit" if "ok" in r else "notfound" if r["err"] == "TemplateNotFoundError" else "raises-" + r["err"])
         return t
@@ -576,7 +586,7 @@ class FslStream(LoaderStream):
         return ["c22_fsl", model_fs(self.tree_of(case, obs["pkg"]), sb), cfg, [cps(n.replace("$SB", sb)) for n in case["names"]]]
 
 
-PKG_EXTS = [".liquid", ".liquid", ".txt", "", "..", ".tar.gz"]
+PKG_EXTS = [".liquid", ".liquid", ".liquid", ".txt", ".txt", "", "..", ".tar.gz", "liquid", ".a/b", "."]
 PKG_PATHS = ["templates", "templates", ["templates", "more"], ["more", "templates"], "", ".", "templates/sub/..", ["missing", "templates"]]
 
 
